@@ -12,7 +12,7 @@ def cfg : Cfg := { linkBufferCap := Netpoll.Gen.c_var_LinkBufferCap, block1k := 
 def inBytes : Nat := 10
 
 /-- a live connection as `connection.init` + the poller leave it -/
-def live (cb inb outp : Bool) : Option (CC UInt8) := do
+def live (cb inb outp : Bool) (req : Bool := false) : Option (CC UInt8) := do
   let input : LB UInt8 := newLB cfg Netpoll.Gen.c_pagesize
   let input ← if inb then
       match input.book cfg Netpoll.Gen.c_pagesize Netpoll.Gen.c_pagesize with
@@ -21,7 +21,7 @@ def live (cb inb outp : Bool) : Option (CC UInt8) := do
     else some input
   let output : LB UInt8 := newLB cfg 0
   let output ← if outp then (output.malloc cfg 5 (List.replicate 5 0)).map (·.1) else some output
-  return { closing := 0, tornDown := false, cb := cb, input := input, output := output }
+  return { closing := 0, tornDown := false, cb := cb || req, input := input, output := output, req := req }
 
 def showErr : Err → String
   | .connClosed => "closed" | .eof => "eof" | .other => "other"
@@ -42,7 +42,7 @@ def parseMeth (m : String) (arg : Int) : Option (Meth UInt8) :=
   | "malloc" => some (.malloc 5) | "mlen" => some .mallocLen | "flush" => some .flush | "ack" => some (.mallocAck 0)
   | "append" => some .appendW | "wstr" => some (.writeString [1, 2, 3]) | "wbin" => some (.writeBinary [1, 2, 3])
   | "wdir" => some (.writeDirect [1, 2, 3] 0) | "wbyte" => some (.writeByte 7) | "write" => some (.write [1, 2, 3])
-  | "isactive" => some .isActive | "close" => some .close
+  | "isactive" => some .isActive | "close" => some .close | "detach" => some .detach
   | _ => none
 
 def cell (line : String) : String :=
@@ -51,8 +51,12 @@ def cell (line : String) : String :=
     -- `_tmo`: a read timeout is configured and an earlier read timed out. After the close every wait loop
     -- checks `closing` before it would wait, so the outcome is that of the untimed call (C07 covers the timer).
     let mode? : Option Mode := match mode with
-      | "user" => some .user | "peer" => some .peer | "peeruser" => some .peerThenUser | "detach" => some .detach | _ => none
-    match mode?, live (cb == "1") (inb == "1") (outp == "1"), parseMeth m (toInt! arg) with
+      | "user" => some .user | "peer" => some .peer | "peeruser" => some .peerThenUser | "detach" => some .detach
+      | "huser" => some .hUser | "huserp" => some .hUserPanic | "hpeer" => some .hPeer | "hpeerp" => some .hPeerPanic
+      | "hpanic" => some .hPanic | _ => none
+    -- handler modes: an OnRequest handler is set (`req`); `inb` = the handler left the 10 bytes unread
+    let req := match mode? with | some md => md.viaHandler | none => false
+    match mode?, live (cb == "1") (inb == "1") (outp == "1") req, parseMeth m (toInt! arg) with
     | some md, some c, some meth =>
       let c := c.closeBy md
       let (c1, o1) := c.call cfg meth
